@@ -68,6 +68,8 @@ def spec_compare(impl_line, spec_line):
         cls = 'ancestor-pair'
     elif nxt & 2 and (a.startswith('EV:') or b.startswith('EV:') or a == 'MS{' or b == 'MS{'):
         cls = 'same-source'
+    if cls == 'other' and ((flag | nxt) & 16):
+        cls = 'history-target-domain'
     if cls == 'other' and diags and (diags[0] & 8):
         cls = 'history-overlap'
     return (cls, i, va, vb, di, ds)
